@@ -49,6 +49,8 @@ func childExtra(r *mon.Run, out *childOut) {
 	zeroTTL(r, out)
 	bulkSweep(r, out)
 	suffixNames(r, out)
+	manyCalls(r, out)
+	fullTables(r, out)
 	cleanExact(r, out)
 	sweepsAgainstReRegistration(r, out)
 }
@@ -279,7 +281,10 @@ func largeGroups(r *mon.Run, out *childOut) {
 // nameSpellings: names differing only in letter case or trailing blanks are different names of
 // the table; operations on one must never reach another.
 func nameSpellings(r *mon.Run, out *childOut) {
-	names := []string{"WKS01", "wks01", "Wks01", "WKS01 ", "WKS01  ", " WKS01"}
+	names := []string{"WKS01", "wks01", "Wks01", "WKS01 ", "WKS01  ", " WKS01",
+		// names longer than the 16 octets of the wire form are names of the table all the same: one that
+		// fills 16 octets, two that extend it, a much longer one
+		"ABCDEFGHIJKLMNOP", "ABCDEFGHIJKLMNOPQ", "ABCDEFGHIJKLMNOPR", "ABCDEFGHIJKLMNOPQRSTUVWXYZ0123456789"}
 	for run := 0; run < r.Pick(60, 1500); run++ {
 		rng := r.Rand(fmt.Sprintf("spell|%d", run))
 		t := nbtns.NewNetBIOSNameServer(false)
